@@ -2,6 +2,7 @@
 from __future__ import annotations
 
 import ast
+import copy
 from typing import Dict, List, Optional, Set
 
 from sa.loader import AnalysisError, Unsupported, dotted_name, norm_text
@@ -242,6 +243,181 @@ def check_algebra(ctx, rep):
               "node heights must be the sampling times followed by the internal heights along the last axis")
 
 
+# ---------------------------------------------------------------------------
+# C06.S — the shift (height-difference) parameterisation
+# ---------------------------------------------------------------------------
+def _kw(call, name, pos=None):
+    for k in call.keywords:
+        if k.arg == name:
+            return k.value
+    if pos is not None and len(call.args) > pos:
+        return call.args[pos]
+    return None
+
+
+def _is_const(e, v):
+    if isinstance(e, ast.UnaryOp) and isinstance(e.op, ast.USub) and isinstance(e.operand, ast.Constant):
+        return -e.operand.value == v
+    return isinstance(e, ast.Constant) and e.value == v
+
+
+def _cat_last(e):
+    """operands of torch.cat((a, b, …), -1), else None"""
+    if isinstance(e, ast.Call) and method_name(e) == 'cat' and e.args and isinstance(e.args[0], (ast.Tuple, ast.List)):
+        d = _kw(e, 'dim', 1)
+        if d is not None and _is_const(d, -1):
+            return list(e.args[0].elts)
+    return None
+
+
+def reduction(e, lambdas=None, regime=None):
+    """(kind, operands, per_row) for an expression computing the (smooth) maximum of the children heights; None if not recognised"""
+    if isinstance(e, ast.Subscript) and isinstance(e.slice, ast.Constant) and e.slice.value == 0:
+        r = reduction(e.value, lambdas, regime)
+        return r
+    if isinstance(e, ast.Attribute) and e.attr == 'values':
+        return reduction(e.value, lambdas, regime)
+    if isinstance(e, ast.BinOp) and isinstance(e.op, ast.Div):
+        r = reduction(e.left, lambdas, regime)
+        if r and r[0].startswith('lse*'):
+            k = r[0][4:]
+            return ('lse', r[1], r[2]) if ast.unparse(e.right) == k else ('lse-unscaled', r[1], r[2])
+        return None
+    if not isinstance(e, ast.Call):
+        return None
+    name = method_name(e)
+    if name == 'max' and isinstance(e.func, ast.Attribute) and isinstance(e.func.value, ast.Name) and e.func.value.id == 'self' and lambdas is not None:
+        lam = lambdas.get(regime)
+        if lam is None:
+            return None
+        arg = lam.args.args[0].arg
+        body = copy.deepcopy(lam.body)
+
+        class Sub(ast.NodeTransformer):
+            def visit_Name(self, n):
+                return copy.deepcopy(e.args[0]) if n.id == arg else n
+        return reduction(Sub().visit(body), lambdas, regime)
+    if name in ('max', 'maximum') and len(e.args) == 2 and not e.keywords and not isinstance(e.args[1], (ast.Constant, ast.UnaryOp)):
+        return ('max', frozenset(ast.unparse(a) for a in e.args), True)
+    if name == 'max':
+        ops = _cat_last(e.args[0]) if e.args else None
+        if ops is None:
+            return None
+        dim, keep = _kw(e, 'dim', 1), _kw(e, 'keepdim', 2)
+        per_row = dim is not None and _is_const(dim, -1) and keep is not None and _is_const(keep, True)
+        return ('max', frozenset(ast.unparse(a) for a in ops), per_row)
+    if name in ('logsumexp', 'smooth_max'):
+        x = e.args[0] if e.args else None
+        if name == 'smooth_max':
+            ops = _cat_last(x)
+            k = ast.unparse(e.args[1]) if len(e.args) > 1 else None
+            dim, keep = _kw(e, 'dim', 2), _kw(e, 'keepdim', 3)
+            kind = 'lse'
+        else:
+            dim, keep = _kw(e, 'dim', 1), _kw(e, 'keepdim', 2)
+            ops, k = None, None
+            if isinstance(x, ast.BinOp) and isinstance(x.op, ast.Mult) and _cat_last(x.left) is not None:
+                ops, k = _cat_last(x.left), ast.unparse(x.right)
+            else:
+                raw = _cat_last(x)
+                if raw is not None and all(isinstance(o, ast.BinOp) and isinstance(o.op, ast.Mult) for o in raw) and len({ast.unparse(o.right) for o in raw}) == 1:
+                    ops, k = [o.left for o in raw], ast.unparse(raw[0].right)
+            kind = 'lse*' + (k or '?')
+        if ops is None:
+            return None
+        per_row = dim is not None and _is_const(dim, -1) and keep is not None and _is_const(keep, True)
+        return (kind, frozenset(ast.unparse(a) for a in ops), per_row)
+    return None
+
+
+def check_shift(ctx, rep):
+    d = ctx.classes.get(f"{TH}.DifferenceNodeHeightTransform")
+    if d is None:
+        raise AnalysisError('DifferenceNodeHeightTransform not found')
+    init, call, inv = (d.resolve(n)[1] for n in ('__init__', '_call', '_inverse'))
+    # the two regimes of self.max
+    lambdas = {}
+    regime_test = None
+    for st in init.body:
+        if isinstance(st, ast.If) and 'self.k' in ast.unparse(st.test):
+            regime_test = ast.unparse(st.test)
+            for branch, name in ((st.body, 'then'), (st.orelse, 'else')):
+                for s2 in branch:
+                    if isinstance(s2, ast.Assign) and self_attr(s2.targets[0]) == 'max' and isinstance(s2.value, ast.Lambda):
+                        lambdas[name] = s2.value
+    if set(lambdas) != {'then', 'else'} or regime_test not in ('self.k <= 0', 'self.k > 0'):
+        raise Unsupported(init, 'the two regimes of self.max not recognised')
+    hard, smooth = ('then', 'else') if regime_test == 'self.k <= 0' else ('else', 'then')
+    # smooth_max is logsumexp(k·x)/k along the requested axis
+    sm = ctx.prog.resolve('torchtree.ops.smooth.smooth_max')
+    sm_ok = False
+    if sm and sm[0] == 'function':
+        f = sm[2]
+        ret = [n for n in ast.walk(f) if isinstance(n, ast.Return)]
+        a = [x.arg for x in f.args.args]
+        sm_ok = len(ret) == 1 and ast.unparse(ret[0].value).replace(' ', '') == f"torch.logsumexp({a[0]}*{a[1]},dim={a[2]},keepdim={a[3]})/{a[1]}"
+    rep.check('C06.S', 'smooth_max::logsumexp(k·x)/k-along-dim', sm_ok, where(sm[1], sm[2]) if sm else '', None, "smooth_max must be logsumexp(k·x, dim, keepdim)/k")
+    # forward
+    loops = [n for n in ast.walk(call) if isinstance(n, ast.For) and isinstance(n.target, ast.Tuple) and len(n.target.elts) == 3]
+    if len(loops) != 1:
+        raise Unsupported(call, 'forward loop not found')
+    node, left, right = (e.id for e in loops[0].target.elts)
+    upd = [st for st in loops[0].body if isinstance(st, ast.Assign)][0]
+    hname = ast.unparse(upd.targets[0].value)
+    children = frozenset({f"{hname}[{left}]", f"{hname}[{right}]"})
+    post = 'postorder' in ast.unparse(loops[0].iter)
+    fwd = {}
+    xs = None
+    if isinstance(upd.value, ast.BinOp) and isinstance(upd.value.op, ast.Add):
+        for a, b in ((upd.value.left, upd.value.right), (upd.value.right, upd.value.left)):
+            r = {reg: reduction(a, lambdas, reg) for reg in ('then', 'else')}
+            if all(r.values()):
+                fwd, xs = r, b
+    Wf = where(d.module, upd)
+    x = call.args.args[1].arg
+    xs_ok = xs is not None and ast.unparse(xs).replace(' ', '') in (f"{x}[...,{node}-self.taxa_count:{node}-self.taxa_count+1]",)
+    tgt_ok = ast.unparse(upd.targets[0]) == f"{hname}[{node}]"
+    for reg, label in ((hard, 'k≤0'), (smooth, 'k>0')):
+        r = fwd.get(reg)
+        ok = r is not None and r[1] == children and r[2] and r[0] == ('max' if reg == hard else 'lse')
+        rep.check('C06.S', f"DifferenceNodeHeightTransform._call::{label}::height=max(children)+increment", ok and xs_ok and tgt_ok and post, Wf,
+                  {'reduction': str(r), 'increment': ast.unparse(xs) if xs is not None else None},
+                  "node height must be the per-sample (smooth) maximum of its two children plus the node's own increment, children first (post-order)")
+    # inverse: one branch per regime
+    top = [st for st in inv.body if isinstance(st, ast.If) and 'self.k' in ast.unparse(st.test)]
+    if len(top) != 1 or ast.unparse(top[0].test) not in ('self.k > 0', 'self.k <= 0'):
+        raise Unsupported(inv, 'inverse regimes not recognised')
+    sm_branch, hd_branch = (top[0].body, top[0].orelse) if ast.unparse(top[0].test) == 'self.k > 0' else (top[0].orelse, top[0].body)
+    for branch, reg, label in ((hd_branch, hard, 'k≤0'), (sm_branch, smooth, 'k>0')):
+        lp = [n for st in branch for n in ast.walk(st) if isinstance(n, ast.For) and isinstance(n.target, ast.Tuple) and len(n.target.elts) == 3]
+        if len(lp) != 1:
+            rep.bad('C06.S', f"DifferenceNodeHeightTransform._inverse::{label}::increment=height−max(children)", where(d.module, inv), None, 'inverse loop not found in this regime')
+            continue
+        n2, l2, r2 = (e.id for e in lp[0].target.elts)
+        u2 = [st for st in lp[0].body if isinstance(st, ast.Assign)][0]
+        ok = False
+        facts = {'inverse': norm_text(u2)[:160], 'forward_reduction': str(fwd.get(reg))}
+        if isinstance(u2.value, ast.BinOp) and isinstance(u2.value.op, ast.Sub) and isinstance(u2.value.left, ast.Subscript):
+            h2 = ast.unparse(u2.value.left.value)
+            red = reduction(u2.value.right, lambdas, reg)
+            facts['inverse_reduction'] = str(red)
+            f = fwd.get(reg)
+            ok = red is not None and f is not None and red[2] and red[0] == f[0] and red[1] == frozenset({f"{h2}[{l2}]", f"{h2}[{r2}]"}) \
+                and ast.unparse(u2.value.left) == f"{h2}[{n2}]" and ast.unparse(u2.targets[0]) == f"{ast.unparse(u2.targets[0].value)}[{n2} - self.taxa_count]"
+        rep.check('C06.S', f"DifferenceNodeHeightTransform._inverse::{label}::increment=height−max(children)", ok, where(d.module, u2), facts,
+                  "the increment must be the node's height minus the same per-sample (smooth) maximum of its two children that the forward map adds: otherwise "
+                  "inverse∘forward is not the identity (for batched inputs a maximum without a dim mixes the samples)")
+    # both directions use sampling times for the tips and concatenate along the last axis
+    for fn, nm in ((call, '_call'), (inv, '_inverse')):
+        st = [n for n in ast.walk(fn) if isinstance(n, ast.Call) and method_name(n) == 'split' and 'sampling_times' in ast.unparse(n)]
+        ok = bool(st) and all(ast.unparse(n).replace(' ', '').endswith('.split(1,-1)') for n in st)
+        ret = [n for n in ast.walk(fn) if isinstance(n, ast.Return)]
+        ok = ok and len(ret) == 1 and _cat_last(ret[0].value) is None and isinstance(ret[0].value, ast.Call) and method_name(ret[0].value) == 'cat' \
+            and _is_const(_kw(ret[0].value, 'dim', 1), -1)
+        rep.check('C06.S', f"DifferenceNodeHeightTransform.{nm}::tips-at-sampling-times-last-axis", ok, where(d.module, fn), None,
+                  "tip heights must be the sampling times split along the last axis and results concatenated along the last axis")
+
+
 def run(ctx, rep):
     rep.explanation = (
         "C06.D: in every class whose constructor chooses an attribute among several constructor calls, stores to that attribute elsewhere must not "
@@ -253,8 +429,9 @@ def run(ctx, rep):
     rep.rule('C06.D', "moving the model between devices does not change which parameterisation is in force")
     rep.rule('C06.R', "parent/child role agreement between the pre-order table and all of its consumers")
     rep.rule('C06.F', "ratio transform: forward is a convex combination of bound and parent height; inverse∘forward = identity; bounds = max over children; tips at sampling times")
+    rep.rule('C06.S', "shift transform: height = per-sample (smooth) max of children + increment; the inverse subtracts the same reduction in each k regime")
     rep.not_decided += ["validity for all topologies numerically", "batching (see C07.I cat-along-last-axis)", "tip-date conventions"]
-    for f, rule in ((check_device_moves, 'C06.D'), (check_roles, 'C06.R'), (check_algebra, 'C06.F')):
+    for f, rule in ((check_device_moves, 'C06.D'), (check_roles, 'C06.R'), (check_algebra, 'C06.F'), (check_shift, 'C06.S')):
         try:
             f(ctx, rep)
         except Unsupported as u:
